@@ -6,6 +6,7 @@ copy_memory_or_grant_access / copy_memory_or_deny_access (rlbox_stdlib.hpp:232-3
 libc calls are stubs whose *preconditions* state what RLBox must guarantee about the ranges it passes."""
 from vlib.unit import Unit, Inst
 import vlib.replay_c09  # registers the hook-based native replays
+from .C03 import OBJVIEW
 from .common import CXX_INTS, mi, tid, cs, PRE_GHOST, HOST_SIZE
 
 PROP = 'C10'
@@ -216,6 +217,34 @@ __CPROVER_assigns(g_memcmp_calls);
                 note='adversarial-read model: the size cell may change between any two reads; the count compared must itself satisfy the range clauses (stated on the arguments of the comparison, not on what a helper recorded)')
 
 
+def memcmp_volatile_dest_inst(tier):
+    """the destination POINTER lives in sandbox memory (memcmp(s, *pp, ...), memcmp(s, p->buf, ...)): every fetch of the cell is an
+    adversarial read, so the address compared must be the very one that went through the range check"""
+    TVP = cs('rlbox::tainted_volatile<char *, rlbox::vsbx>')
+    S = '((uintptr_t)*$2)'
+    NUM = 'MI(*$3)'
+    stub = '''
+int vstd_memcmp(const void *d, const void *s, unsigned long n)
+__CPROVER_requires(n == 0 || WHOLLY_IN_SOME((uintptr_t)d, n)) /*@memcmp_dest_wholly_inside*/
+__CPROVER_requires(n == 0 || WHOLLY_IN_SOME((uintptr_t)s, n) || WHOLLY_OUT(g_slot, (uintptr_t)s, n)) /*@memcmp_src_one_side*/
+__CPROVER_ensures(g_memcmp_calls == __CPROVER_old(g_memcmp_calls) + 1)
+__CPROVER_assigns(g_memcmp_calls);
+'''
+    cl = SB_REQ + [
+        ('dest_cell', '__CPROVER_requires(__CPROVER_r_ok((const struct %s *)$1, sizeof(struct %s)) && V_WHICH((uintptr_t)$1) != -1 && g_expect_example == 0 && g_memcmp_calls == 0)' % (TVP, TVP)),
+        ('src_inv', '__CPROVER_requires(%s < 0x8000000000000000UL)' % S),
+        ('performed_once', '__CPROVER_ensures(g_memcmp_calls == 1)'),
+        ('frame', '__CPROVER_assigns(g_memcmp_calls)'),
+    ]
+    h = SB_HARNESS + ('  struct %s cell; __CPROVER_assume(V_WHICH((uintptr_t)&cell) != -1); uintptr_t in_s; const char *src = (const char *)in_s; unsigned long in_num;\n'
+                      '  g_memcmp_calls = 0; g_noabort = 0; g_expect_example = 0; g_backend_nonnull = 0;\n'
+                      '  $ROOT(&sb, (void *)&cell, &src, &in_num);\n' % TVP)
+    return Inst('c10_memcmp_dest_pointer_in_sandbox_memory', 'rlbox_sandbox<vsbx>& s, tainted_volatile<char*, vsbx>& p, const char*& src, size_t& num', 'memcmp(s, p, src, num);',
+                cl, h, leaves=['dynamic_check', 'vsbx.impl_get_total_memory', CHECK_RANGE_LEAF, 'vsbx.impl_get_unsandboxed_pointer_no_ctx', 'find_sandbox_from_example'], prop=PROP, root_name='memcmp', tier=tier,
+                pre=SPEC + stub, pre_defines=OBJVIEW, extra_replace=['vstd_memcmp'], opts={'amp_star': True, 'volatile_read_check': True}, nondet_volatile=True,
+                note='adversarial-read model: the pointer cell may change between any two fetches; the address compared must itself satisfy the range clauses')
+
+
 def unverified_ptr_inst(pointee, tier):
     """unverified_safe_pointer_because(count, reason): the raw pointer handed back has `count` whole elements inside"""
     ptr_spelling = pointee + ' *' if not pointee.endswith(')') else pointee
@@ -334,9 +363,14 @@ def grant_access_inst(el, esz, tier):
     contracts of malloc_in_sandbox (C14/C03) and rlbox::memcpy (this property)"""
     cel = {'char16_t': 'unsigned short'}.get(el, el)
     TT = cs('rlbox::tainted<%s *, rlbox::vsbx>' % el)
-    malloc_leaf = ('rlbox_sandbox::malloc_in_sandbox(contract)', lambda fn, rec: fn.get('name') == 'malloc_in_sandbox',
+    # the allocation is made for the ELEMENT TYPE that is copied (count elements of it): the contract leaf is the instantiation
+    # malloc_in_sandbox<el>; any other instantiation (e.g. <char> with an element count) meets requires(0)
+    mcode = {'char': 'c', 'char16_t': 'Ds', 'int': 'i', 'long': 'l', 'double': 'd', 'short': 's'}[el]
+    malloc_leaf = ('rlbox_sandbox::malloc_in_sandbox<%s>(contract)' % el, lambda fn, rec: fn.get('name') == 'malloc_in_sandbox' and ('malloc_in_sandboxI%sE' % mcode) in fn.get('mangledName', ''),
                    '__CPROVER_ensures((uintptr_t)$ret.data == (g_malloc_fails ? 0UL : g_sbx_malloc_ret) && g_sbx_malloc_count == $0 && g_sbx_mallocs == __CPROVER_old(g_sbx_mallocs) + 1)\n'
                    '__CPROVER_assigns(g_sbx_malloc_count, g_sbx_mallocs)')
+    malloc_other = ('rlbox_sandbox::malloc_in_sandbox(another element type)', lambda fn, rec: fn.get('name') == 'malloc_in_sandbox',
+                    '__CPROVER_requires(0) /*@the_allocation_is_made_for_the_element_type_that_is_copied*/\n__CPROVER_ensures(1)\n__CPROVER_assigns()')
     memcpy_leaf = ('rlbox::memcpy(contract, this property)', lambda fn, rec: fn.get('name') == 'memcpy',
                    '__CPROVER_ensures(g_rl_memcpys == __CPROVER_old(g_rl_memcpys) + 1 && g_cp_d == (uintptr_t)$1.data && g_cp_s == (uintptr_t)$2 && g_cp_n == $3)\n'
                    '__CPROVER_assigns(g_rl_memcpys, g_cp_d, g_cp_s, g_cp_n)')
@@ -354,7 +388,7 @@ def grant_access_inst(el, esz, tier):
                       '  g_exp_s = in_s; g_exp_n = in_num; g_exp_esz = %d; g_sbx_mallocs = 0; g_rl_memcpys = 0; g_app_frees = 0; g_malloc_fails = in_mfail; g_sbx_malloc_ret = in_mret;\n'
                       '  struct %s r = $ROOT(&sb, (%s *)in_s, in_num, in_free, &copied);\n' % (esz, TT, cel))
     return Inst('c10_copy_memory_or_grant_access_%s' % tid(el), 'rlbox_sandbox<vsbx>& s, %s* src, size_t num, bool fr, bool& copied' % el,
-                'copy_memory_or_grant_access(s, src, num, fr, copied);', cl, h, leaves=['dynamic_check', malloc_leaf, memcpy_leaf], prop=PROP,
+                'copy_memory_or_grant_access(s, src, num, fr, copied);', cl, h, leaves=['dynamic_check', malloc_leaf, malloc_other, memcpy_leaf], prop=PROP,
                 root_name='copy_memory_or_grant_access', tier=tier, pre=GRANT_SPEC, extra_replace=['vstd_free'])
 
 
@@ -365,38 +399,42 @@ def native_access_inst(which, el, esz, tier):
     SBG = cs('rlbox::rlbox_sandbox<rlbox::vsbx_gd>')
     cel = {'char16_t': 'unsigned short'}.get(el, el)
     BYTES = '(MI($1) * MI(%d))' % esz
+    # the stub stands for the BACKEND's operation (impl_grant_access / impl_deny_access of vsbx_gd); the core wrappers
+    # INTERNAL_grant_access / INTERNAL_deny_access are verified inline: they pass the start and the ELEMENT count on unchanged and
+    # hand back what the backend returned (g_backend_ret: an arbitrary address, e.g. where the backend re-homed the buffer)
+    A = '((uintptr_t)$0)'
     if which == 'grant':
-        A = '((uintptr_t)$0)'
-        leaf = ('rlbox_sandbox::INTERNAL_grant_access(stub: succeeds)', lambda fn, rec: fn.get('name') == 'INTERNAL_grant_access',
+        leaf = ('vsbx_gd.impl_grant_access(stub: succeeds)', lambda fn, rec: fn.get('name') == 'impl_grant_access',
                 '__CPROVER_requires(%s != 0 && %s < (MI(1) << 64) && V_WHICH(%s) == V_WHICH(%s + $1 * %dUL - 1)) /*@granted_range_has_num_whole_elements_on_one_side_of_the_boundary*/\n'
-                '__CPROVER_ensures(*$2 == 1 && (uintptr_t)$ret.data == %s && g_native_calls == __CPROVER_old(g_native_calls) + 1)\n__CPROVER_assigns(*$2, g_native_calls)' % (A, BYTES, A, A, esz, A))
+                '__CPROVER_requires($1 == g_exp_num && %s == g_exp_start) /*@backend_is_handed_the_start_and_the_element_count_given*/\n'
+                '__CPROVER_ensures(*$2 == 1 && (uintptr_t)$ret == g_backend_ret && g_native_calls == __CPROVER_old(g_native_calls) + 1)\n__CPROVER_assigns(*$2, g_native_calls)' % (A, BYTES, A, A, esz, A))
         TT = cs('rlbox::tainted<%s *, rlbox::vsbx_gd>' % el)
         params, expr, rn = 'rlbox_sandbox<vsbx_gd>& s, %s* src, size_t num, bool fr, bool& copied' % el, 'copy_memory_or_grant_access(s, src, num, fr, copied);', 'copy_memory_or_grant_access'
-        decl = '  uintptr_t in_s; unsigned long in_num; _Bool in_free; _Bool copied;\n  struct %s r = $ROOT(&sb, (%s *)in_s, in_num, in_free, &copied);\n' % (TT, cel)
-        post = [('moved_not_copied', '__CPROVER_ensures(g_native_calls == 1 && *$4 == 0 && (uintptr_t)$ret.data == (uintptr_t)$1)')]
+        decl = '  uintptr_t in_s; unsigned long in_num; _Bool in_free; _Bool copied; g_exp_num = in_num; g_exp_start = in_s;\n  struct %s r = $ROOT(&sb, (%s *)in_s, in_num, in_free, &copied);\n' % (TT, cel)
+        post = [('moved_not_copied_and_the_backends_address_is_handed_back', '__CPROVER_ensures(g_native_calls == 1 && *$4 == 0 && (uintptr_t)$ret.data == g_backend_ret)')]
     else:
         TT = cs('rlbox::tainted<%s *, rlbox::vsbx_gd>' % el)
-        A = '((uintptr_t)$0.data)'
-        leaf = ('rlbox_sandbox::INTERNAL_deny_access(stub: succeeds)', lambda fn, rec: fn.get('name') == 'INTERNAL_deny_access',
+        leaf = ('vsbx_gd.impl_deny_access(stub: succeeds)', lambda fn, rec: fn.get('name') == 'impl_deny_access',
                 '__CPROVER_requires(%s < (MI(1) << 64) && WHOLLY_IN_SOME(%s, %s)) /*@denied_range_has_num_whole_elements_inside_one_sandbox*/\n'
-                '__CPROVER_ensures(*$2 == 1 && (uintptr_t)$ret == %s && g_native_calls == __CPROVER_old(g_native_calls) + 1)\n__CPROVER_assigns(*$2, g_native_calls)' % (BYTES, A, BYTES, A))
+                '__CPROVER_requires($1 == g_exp_num && %s == g_exp_start) /*@backend_is_handed_the_start_and_the_element_count_given*/\n'
+                '__CPROVER_ensures(*$2 == 1 && (uintptr_t)$ret == g_backend_ret && g_native_calls == __CPROVER_old(g_native_calls) + 1)\n__CPROVER_assigns(*$2, g_native_calls)' % (BYTES, A, BYTES, A))
         params, expr, rn = 'rlbox_sandbox<vsbx_gd>& s, tainted<%s*, vsbx_gd> src, size_t num, bool fr, bool& copied' % el, 'copy_memory_or_deny_access(s, src, num, fr, copied);', 'copy_memory_or_deny_access'
-        decl = ('  struct %s src; uintptr_t in_p; src.data = (%s *)in_p; __CPROVER_assume(in_p == 0 || V_WHICH(in_p) != -1); unsigned long in_num; _Bool in_free; _Bool copied;\n'
+        decl = ('  struct %s src; uintptr_t in_p; src.data = (%s *)in_p; __CPROVER_assume(in_p == 0 || V_WHICH(in_p) != -1); unsigned long in_num; _Bool in_free; _Bool copied; g_exp_num = in_num; g_exp_start = in_p;\n'
                 '  void *r = (void *)$ROOT(&sb, src, in_num, in_free, &copied);\n' % (TT, cel))
-        post = [('moved_not_copied', '__CPROVER_ensures(g_native_calls == 1 && *$4 == 0 && (uintptr_t)$ret == (uintptr_t)$1.data)')]
+        post = [('moved_not_copied_and_the_backends_address_is_handed_back', '__CPROVER_ensures(g_native_calls == 1 && *$4 == 0 && (uintptr_t)$ret == g_backend_ret)')]
     cl = [('wf', '__CPROVER_requires(V_BACKEND_WF && g_native_calls == 0 && __CPROVER_w_ok($4, 1))'),
           ('sandbox_obj', '__CPROVER_requires(__CPROVER_r_ok($0, sizeof(struct %s)) && ($0->base0.base0.slot == 0 || $0->base0.base0.slot == 1) && V_LIVE($0->base0.base0.slot))' % SBG)] + post + [
           ('frame', '__CPROVER_assigns(g_native_calls, *$4)')]
     h = ('  struct %s sb; int in_slot; sb.base0.base0.slot = in_slot; unsigned long in_base0, in_size0, in_base1, in_size1;\n'
          '  V_BASE[0] = in_base0; V_SIZE[0] = in_size0; V_BASE[1] = in_base1; V_SIZE[1] = in_size1;\n'
-         '  __CPROVER_assume(V_BACKEND_WF && (in_slot == 0 || in_slot == 1) && V_LIVE(in_slot)); g_noabort = 0; g_native_calls = 0;\n' % SBG) + decl
+         '  __CPROVER_assume(V_BACKEND_WF && (in_slot == 0 || in_slot == 1) && V_LIVE(in_slot)); g_noabort = 0; g_native_calls = 0; unsigned long in_backend_ret; g_backend_ret = in_backend_ret;\n' % SBG) + decl
     return Inst('c10_%s_access_native_%s' % (which, tid(el)), params, expr, cl, h, leaves=['dynamic_check', CHECK_RANGE_LEAF, leaf], prop=PROP, root_name=rn, tier=tier,
-                pre=SPEC + ' unsigned g_native_calls;\n', solvers=('cadical', 'minisat'), timeout=400, note='backend with can_grant_deny_access (vsbx_gd); the backend move itself is a stub that reports success')
+                pre=SPEC + ' unsigned g_native_calls; unsigned long g_exp_num, g_exp_start, g_backend_ret;\n', solvers=('cadical', 'minisat'), timeout=400, note='backend with can_grant_deny_access (vsbx_gd); the backend move itself is a stub that reports success and returns an arbitrary address; the core wrappers INTERNAL_grant_access / INTERNAL_deny_access are verified inline')
 
 
 def units(tier):
     insts = [check_range_inst(tier), memset_inst('plain', tier), memset_inst('tainted', tier), memcpy_inst('raw', tier),
-             memcpy_inst('tainted', tier), memcmp_inst(tier), memcmp_inst(tier, 'tainted'), memcmp_inst(tier, 'raw', 'tainted'), memcpy_inst('raw', tier, 'tainted'), memcmp_volatile_size_inst(tier)]
+             memcpy_inst('tainted', tier), memcmp_inst(tier), memcmp_inst(tier, 'tainted'), memcmp_inst(tier, 'raw', 'tainted'), memcpy_inst('raw', tier, 'tainted'), memcmp_volatile_size_inst(tier), memcmp_volatile_dest_inst(tier)]
     for pt in (['int', 'char', 'long'] if tier == 'quick' else ['int', 'char', 'long', 'short', 'double', 'long long', 'unsigned char']):
         insts.append(unverified_ptr_inst(pt, tier))
     for pt in (['char', 'long'] if tier == 'quick' else ['int', 'char', 'long', 'short', 'double']):
@@ -414,5 +452,5 @@ ASSUMPTIONS = [
 TRUSTED = ['numeric memory view: addresses are integers; "touches only those bytes" is the call-site precondition of the libc stub']
 MANIFEST = {
     'level_text': 'For each bulk operation the instantiated body is proved, for all start addresses, extents up to 2^64 and every well-formed two-region address space, to either abort or call the libc routine exactly once with exactly the given ranges, each sandbox-side range lying wholly inside one region and each application-side range wholly outside the sandbox (call-site preconditions of the libc stubs), and not to abort for a non-empty valid request. The range checker is verified against its own contract and callers only see that contract. Loop-free: complete.',
-    'level_note': 'Numeric view: libc routines are contract stubs. copy_and_verify_range/string are decided under C09 (object view). copy_memory_or_grant_access is proved over the contracts of malloc_in_sandbox and rlbox::memcpy; copy_memory_or_deny_access over malloc/memcpy/free stubs for a backend that cannot revoke access (copy path).',
+    'level_note': 'Numeric view: libc routines are contract stubs. copy_and_verify_range/string are decided under C09 (object view). copy_memory_or_grant_access is proved over the contracts of malloc_in_sandbox and rlbox::memcpy; copy_memory_or_deny_access over malloc/memcpy/free stubs for a backend that cannot revoke access (copy path). On a backend that can grant / revoke access the core wrappers INTERNAL_grant_access / INTERNAL_deny_access are verified inline against a stub of the backend operation (exact start, element count, returned address). memcmp is also proved with its size operand and with its destination pointer in sandbox memory (adversarial reads).',
 }
